@@ -101,7 +101,7 @@ def rule_wire(ctx):
     rt = prog.one(R + 'read_txs')
     ctx.touch(rt)
     ctx.check('wire', 'read_txs:count-times-read_tx', canon(rt.ret_expr()) == 'collect(map(Range::Range{start: 0, end: a2}, closure:{closure#0}))', rt, canon(rt.ret_expr()))
-    cl = prog.one(R + 'read_txs::{closure#0}')
+    cl = util.only_closure(prog, rt)
     ctx.touch(cl)
     rd = [c for c in cl.calls if wire.is_read(c)]
     ctx.check('wire', 'read_txs:item=read_tx', len(rd) == 1 and mir.method_name(rd[0].name) == 'read_tx' and len(cl.calls) == 1, cl, 'closure reads exactly one tx')
@@ -155,7 +155,7 @@ def rule_bind(ctx):
     bn = prog.one('Block::new')
     ctx.touch(bn)
     ctx.check('bind', 'Block::new', canon(bn.ret_expr()) == 'Block::Block{size: a1, header: double_sha256(a2), aux_pow_extension: a3, tx_count: a4, txs: collect(map(a5, closure:{closure#0}))}', bn, canon(bn.ret_expr()))
-    cl = prog.one('Block::new::{closure#0}')
+    cl = util.only_closure(prog, bn)
     ctx.touch(cl)
     names = [c.name for c in cl.calls]
     ctx.check('bind', 'Block::new:tx=double_sha256(EvaluatedTx::from(raw))', canon(cl.ret_expr()) == 'double_sha256(a2)' and any('EvaluatedTx as std::convert::From<' in n for n in names), cl, 'closure: %s' % names)
@@ -270,18 +270,18 @@ def rule_ser(ctx):
     for ty, exp in SER.items():
         b = prog.one('<%s as blockchain::proto::ToRaw>::to_bytes' % ty)
         ctx.touch(b)
-        vec = [l for l in range(len(b.locals)) if b.local_ty(l) == 'std::vec::Vec<u8>' and any(d[0] == 'call' and mir.method_name(d[2].name) == 'with_capacity' for d in b.defs().get(l, []))]
-        if len(vec) != 1:
+        bp = util.byte_pieces(b)
+        if bp is None:
             ctx.unrecognised('ser', 'buffer:%s' % ty, b, 'output buffer not identified')
             continue
-        seq = [(s[1], s[2], s[3]) for s in util.builder_sequence(b, vec[0])]
+        seq, returns_buf = bp
         short = ty.split('::')[-1]
         n = max(len(seq), len(exp))
         for k in range(n):
             g = seq[k] if k < len(seq) else None
             e = exp[k] if k < len(exp) else None
             ctx.check('ser', '%s:piece%d' % (short, k), g == e, b, '%s' % (g,), bad_detail='%s::to_bytes piece %d is %s; the on-disk layout (minus witness) has %s' % (short, k, g, e))
-        ctx.check('ser', '%s:returns-buffer' % short, canon(b.ret_expr()) == canon(b.local_expr(vec[0])), b, 'returns the buffer')
+        ctx.check('ser', '%s:returns-buffer' % short, returns_buf, b, 'returns the buffer')
         # iteration over inputs/outputs is forward and complete
         bad = [c for c in b.calls if mir.method_name(c.name) in ('rev', 'skip', 'take', 'filter', 'step_by')]
         ctx.check('ser', '%s:forward-complete' % short, not bad, b, 'no adaptor on element loops')
@@ -302,8 +302,8 @@ def rule_ser(ctx):
              ('blockchain::proto::tx::TxOutpoint', 'read_tx_outpoint', ['txid', 'index'])]
     for ty, fn, order in pairs:
         b = prog.one('<%s as blockchain::proto::ToRaw>::to_bytes' % ty)
-        vec = [l for l in range(len(b.locals)) if b.local_ty(l) == 'std::vec::Vec<u8>' and any(d[0] == 'call' and mir.method_name(d[2].name) == 'with_capacity' for d in b.defs().get(l, []))]
-        seq = [re.sub(r'^to_le_bytes\((.*)\)$', r'\1', s[2][0]).replace('self.', '') for s in util.builder_sequence(b, vec[0])]
+        bp = util.byte_pieces(b)
+        seq = [re.sub(r'^to_le_bytes\((.*)\)$', r'\1', s[1][0]).replace('self.', '') for s in (bp[0] if bp else [])]
         rbody = prog.one(R + fn)
         items, labels = wire.grammar(rbody)
         ret = wire.ret_canon(rbody, labels)
